@@ -55,7 +55,7 @@ Lemma step_top_silent s l s' :
   st_phase s' = PTop.
 Proof.
   intros PT H SL.
-  destruct l as [w|w|w| |k its| |w|c|w|w| | |w]; simpl in H; try tauto.
+  destruct l as [w|w|w| |k its| |w|c|w|w| | |w| ]; simpl in H; try tauto.
   - unfold do_create in H. rewrite PT in H. discriminate.
   - unfold do_consume in H. rewrite PT in H. discriminate.
   - unfold do_abandon in H. rewrite PT in H. discriminate.
@@ -71,6 +71,7 @@ Proof.
   - unfold do_arrive in H. destruct (st_gor s w); try discriminate. inversion H; subst s'. exact PT.
   - unfold do_end in H. rewrite PT in H. discriminate.
   - unfold do_exit in H. rewrite PT in H. discriminate.
+  - unfold do_cancel in H. destruct (st_cancelled s); [discriminate|]. inversion H; subst s'. exact PT.
 Qed.
 
 Lemma top_without_delivery : forall mid s s1,
@@ -148,6 +149,42 @@ Proof.
   destruct (lookup p w) as [it|] eqn:L; [|discriminate]. rewrite PR, (NC w it L). reflexivity.
 Qed.
 
+(** ... and everything a round fills is outstanding at its entry: one idle round of the LTS is one
+    [idle] transition of C02's promise table ([ExecAsync.idle]: the chosen outstanding promises
+    become done and their results are appended to the channels) with chosen = [deliveries mid] —
+    the handler's half of a joint executor + handler model *)
+Theorem round_deliveries_outstanding pre mid s :
+  no_chaining p ->
+  run fx p init (pre ++ LIdleEnter :: mid ++ [LIdleExit]) = Some s -> ~ In LIdleExit mid ->
+  deliveries mid <> [] /\
+  forall w, In w (deliveries mid) ->
+    visible p w = true /\ In w (created_of pre) /\ ~ In w (deliveries pre).
+Proof.
+  intros NC R NX.
+  destruct (round_fulfils pre mid s R NX) as [w0 [D0 _]].
+  split; [intro E; rewrite E in D0; destruct D0|].
+  intros w D.
+  pose proof (delivered_once p WF BF fx _ s R) as ND.
+  apply run_app in R as [sa [Ra R]]. cbn [run] in R.
+  destruct (step fx p sa LIdleEnter) as [sb|] eqn:EB; [|discriminate].
+  apply run_app in R as [sc [Rc R]].
+  assert (PB : st_phase sb = PTop).
+  { simpl in EB. unfold do_idle_enter in EB. destruct (st_phase sa); try discriminate.
+    destruct (_ && _); [|discriminate]. inversion EB; subst sb. reflexivity. }
+  assert (Rbc : run fx p init (pre ++ LIdleEnter :: mid) = Some sc).
+  { apply run_app. exists sa. split; auto. cbn [run]. now rewrite EB. }
+  destruct (delivered_is_created_promise _ sc w Rbc) as [CR PR].
+  { rewrite deliveries_app, deliveries_cons. apply in_or_app. right. simpl. exact D. }
+  destruct (segment p BF fx mid sb sc) as [_ [CM _]]; auto; [left; exact PB|].
+  split; [|split].
+  - unfold visible. unfold promise_item in PR. destruct (lookup p w) as [it|] eqn:L; [|discriminate].
+    rewrite PR, (NC w it L). reflexivity.
+  - rewrite created_of_app in CR. apply in_app_or in CR as [CR|CR]; auto.
+    rewrite created_of_cons, CM in CR. destruct CR.
+  - rewrite deliveries_app, deliveries_cons, deliveries_app in ND. simpl in ND.
+    apply NoDup_app_inv in ND as [_ [_ DJ]]. intro X. apply (DJ w X). apply in_or_app. now left.
+Qed.
+
 (** the executor's calls of the handler are bounded: never more returns of the handler than
     promises filled so far *)
 Definition in_round_delivered (ph : phase) : nat := match ph with PFlush | PDrain => 1 | _ => 0 end.
@@ -157,7 +194,7 @@ Lemma step_counts s l s' :
   exits [l] + in_round_delivered (st_phase s') + length (deliveries []) <=
   in_round_delivered (st_phase s) + length (deliveries [l]).
 Proof.
-  intro H. destruct l as [w|w|w| |k its| |w|c|w|w| | |w]; simpl in H; simpl.
+  intro H. destruct l as [w|w|w| |k its| |w|c|w|w| | |w| ]; simpl in H; simpl.
   - unfold do_create in H. destruct (st_phase s) eqn:PH; try discriminate. destruct (lookup p w) as [it|]; [|discriminate].
     destruct (_ && _); [|discriminate].
     destruct (it_kind it); [| | |destruct (forallb _ _); [|discriminate]]; inversion H; subst s'; simpl; rewrite PH; simpl; lia.
@@ -202,6 +239,7 @@ Proof.
     destruct (forallb _ _); [|discriminate]. inversion H; subst s'. simpl. lia.
   - unfold do_exit in H. destruct (st_phase s) eqn:PH; try discriminate. destruct (v_fix fx); [|discriminate].
     destruct (st_gor s w); try discriminate; inversion H; subst s'; simpl; rewrite PH; simpl; lia.
+  - unfold do_cancel in H. destruct (st_cancelled s); [discriminate|]. inversion H; subst s'. simpl. lia.
 Qed.
 
 Lemma run_counts : forall tr s s',
